@@ -59,3 +59,24 @@ func VerifC20_DMapCompaction() {
 	vpCheckMirror(cl, "d", "k")
 	vpReach("end")
 }
+
+// VerifC20_ClosedFragment: the compaction pass holds a fragment it took from the partition map while a Destroy (or the
+// janitor, after a hand-over) closes that fragment - the state right after the other thread has closed it is built
+// directly: the fragment of a DMap with garbage in its tables is closed the way destroyLocalDMap does, then the
+// compaction step that was about to run on it runs. It must come back (a worker that never returns keeps its
+// semaphore slot and the periodic compaction of the whole member waits for it for ever).
+func VerifC20_ClosedFragment() {
+	cl := vpTwoMembers(1, 40)
+	ctx := context.Background()
+	dm := vpDMap(cl.members[0], "d")
+	vpAssume(dm.Put(ctx, "k", []byte{1}, nil) == nil)
+	vpAssume(dm.Put(ctx, "k", []byte{2}, nil) == nil)
+	part := dm.getPartitionByHKey(partitions.HKey("d", "k"), partitions.PRIMARY)
+	f, err := dm.loadFragment(part)
+	vpAssume(err == nil)
+	if vpChoose("closed", 2) == 1 {
+		vpAssume(f.Close() == nil)
+	}
+	cl.members[0].svc.callCompactionOnFragment(f)
+	vpReach("end")
+}
